@@ -215,4 +215,248 @@ Proof.
     chase H; repeat (apply Forall_cons; [exact I|]); try apply Forall_nil;
     try (apply Forall_app; split); try (apply Forall_forall; intros x Hx; apply in_map_iff in Hx;
       destruct Hx as (y & <- & _); exact I); repeat (apply Forall_cons; [exact I|]); try apply Forall_nil.
+  - destruct (aget (j_app a) (s_app_req a0)); repeat constructor.
+  - destruct (aget (j_app a) (s_proc_req a0)); [|constructor].
+    apply Forall_forall; intros x Hx; apply in_map_iff in Hx; destruct Hx as (y & <- & _); exact I.
+Qed.
+
+(* ------------------------------------------------------------------ the agenda machine with a log *)
+(* same machine as Sequencer.exec, recording for every emitted request the state and the call that emitted it *)
+Fixpoint exec_log (fuel : nat) (ag : list call) (s : st) (acc : list (st * call * out))
+  : result (st * list (st * call * out)) :=
+  match ag with
+  | [] => Ok (s, rev acc)
+  | c :: rest =>
+      match fuel with
+      | O => Crash OutOfFuel
+      | S f =>
+          match step_call c s with
+          | Crash k => Crash k
+          | Ok ((push, outs), s') => exec_log f (push ++ rest) s' (rev (map (fun o => (s, c, o)) outs) ++ acc)
+          end
+      end
+  end.
+
+Lemma exec_log_agrees : forall fuel ag s acc,
+  exec fuel ag s (map snd acc) =
+  match exec_log fuel ag s acc with Ok (s', log) => Ok (s', map snd log) | Crash k => Crash k end.
+Proof.
+  induction fuel as [|f IH]; intros ag s acc; destruct ag as [|c rest]; simpl.
+  - rewrite map_rev. reflexivity.
+  - reflexivity.
+  - rewrite map_rev. reflexivity.
+  - destruct (step_call c s) as [[[push outs] s']|k]; [|reflexivity].
+    rewrite <- IH. f_equal. rewrite map_app, map_rev, map_map. simpl. rewrite map_id. reflexivity.
+Qed.
+
+(* every logged request satisfies P as soon as every step of a well-formed agenda does *)
+Lemma exec_log_forall : forall (P : st -> call -> out -> Prop),
+  (forall c s push outs s', call_ok c -> step_call c s = Ok ((push, outs), s') -> forall o, In o outs -> P s c o) ->
+  forall fuel ag s acc s' log,
+    Forall call_ok ag -> Forall (fun x => P (fst (fst x)) (snd (fst x)) (snd x)) acc ->
+    exec_log fuel ag s acc = Ok (s', log) ->
+    Forall (fun x => P (fst (fst x)) (snd (fst x)) (snd x)) log.
+Proof.
+  intros P HP. induction fuel as [|f IH]; intros ag s acc s' log Hag Hacc H; destruct ag as [|c rest]; simpl in H.
+  - inversion H; subst. apply Forall_rev. exact Hacc.
+  - discriminate.
+  - inversion H; subst. apply Forall_rev. exact Hacc.
+  - destruct (step_call c s) as [[[push outs] s1]|k] eqn:E; [|discriminate].
+    inversion Hag as [|c' r' Hc Hr]; subst.
+    apply (IH _ _ _ _ _) in H; [exact H| |].
+    + apply Forall_app. split; [exact (step_pushes_ok _ _ _ _ _ E)|exact Hr].
+    + apply Forall_app. split; [|exact Hacc]. apply Forall_rev. apply Forall_forall. intros x Hx.
+      apply in_map_iff in Hx. destruct Hx as (o & <- & Ho). simpl. exact (HP _ _ _ _ _ Hc E o Ho).
+Qed.
+
+Definition emitted_in_order (P : st -> call -> out -> Prop) (log : list (st * call * out)) : Prop :=
+  Forall (fun x => P (fst (fst x)) (snd (fst x)) (snd x)) log.
+
+(* what holds of every single emission: requests come from a group being processed *)
+Definition emission_fact (s : st) (c : call) (o : out) : Prop :=
+  match o with
+  | OStart i a p =>
+      exists jid cid rest cm pr, c = AJGroup jid (cid :: rest) /\ aget cid (s_cmds s) = Some cm /\
+        c_kind cm = KStart /\ c_app cm = a /\ c_proc cm = p /\
+        get_proc s a p = Some pr /\ sp_stopped pr = true
+  | OStop i a p =>
+      exists jid cid rest cm pr, c = AJGroup jid (cid :: rest) /\ aget cid (s_cmds s) = Some cm /\
+        c_kind cm = KStop /\ c_app cm = a /\ c_proc cm = p /\ c_ident cm = Some i /\
+        get_proc s a p = Some pr /\ sp_running_on pr i = true
+  | _ => True
+  end.
+
+Lemma emission_fact_step : forall c s push outs s',
+  call_ok c -> step_call c s = Ok ((push, outs), s') -> forall o, In o outs -> emission_fact s c o.
+Proof.
+  intros c s push outs s' Hok H o Hin.
+  destruct (emits c) eqn:He; [|rewrite (silent_calls _ _ _ _ _ He H) in Hin; simpl in Hin; contradiction].
+  destruct c; simpl in He; try discriminate He; simpl in H.
+  - destruct group as [|cid rest]; [simpl in H; chase H; simpl in Hin; contradiction|].
+    destruct (group_emits _ _ _ _ _ _ _ _ H Hin) as (cm & pr & Hc & Hp & [(i & -> & Hk & Hs)|(i & -> & Hk & Hi & Hr)]);
+      simpl; exists jid, cid, rest, cm, pr; repeat split; auto.
+  - unfold step_force in H. chase H; destruct Hin as [<-|Hin]; simpl; auto; simpl in Hin; contradiction.
+  - chase H. destruct Hin as [<-|[]]. destruct o0; simpl in Hok; try contradiction. exact I.
+Qed.
+
+(* C09 stop_only_where_running and the start counterpart, for EVERY run of the agenda machine from ANY state:
+   each StopReq was emitted in a state where the process was running on the requested identifier, each StartReq in
+   a state where the process was stopped; both while the popped group of an application job was processed *)
+Theorem requests_only_from_groups : forall fuel ag s s' log,
+  Forall call_ok ag -> exec_log fuel ag s [] = Ok (s', log) -> emitted_in_order emission_fact log.
+Proof.
+  intros fuel ag s s' log Hag H. unfold emitted_in_order.
+  apply (exec_log_forall emission_fact emission_fact_step fuel ag s [] s' log Hag); [constructor|exact H].
+Qed.
+
+(* ------------------------------------------------------------------ C10: timeouts *)
+Lemma tick_period_pos : 0 < gs_TICK_PERIOD.
+Proof. vm_compute. reflexivity. Qed.
+
+(* wait_ticks setter: the least number of ticks covering the configured seconds *)
+Lemma ceil_ticks_spec : forall secs,
+  secs <= ceil_ticks secs * gs_TICK_PERIOD /\ (ceil_ticks secs - 1) * gs_TICK_PERIOD < secs.
+Proof.
+  intros secs. unfold ceil_ticks. pose proof tick_period_pos as Hp.
+  pose proof (Z.div_mod (secs + gs_TICK_PERIOD - 1) gs_TICK_PERIOD ltac:(lia)) as Hd.
+  pose proof (Z.mod_pos_bound (secs + gs_TICK_PERIOD - 1) gs_TICK_PERIOD Hp) as Hm.
+  nia.
+Qed.
+
+Lemma ceil_ticks_nonneg : forall secs, 0 <= secs -> 0 <= ceil_ticks secs.
+Proof.
+  intros secs H. unfold ceil_ticks. apply Z.div_pos; pose proof tick_period_pos; lia.
+Qed.
+
+Lemma minimum_ticks_ge : forall s, gs_DEFAULT_TICK_TIMEOUT <= minimum_ticks s.
+Proof. intros s. unfold minimum_ticks. lia. Qed.
+
+(* wait_ticks = ceil(secs / period) + minimum_ticks, as set by update_identifier *)
+Lemma update_identifier_wait : forall c i s c' s',
+  update_identifier c i s = Ok (c', s') ->
+  s' = s /\ c_ident c' = Some i /\ c_min c' = c_min c /\ c_req c' = c_req c /\ c_id c' = c_id c /\
+  c_kind c' = c_kind c /\ c_app c' = c_app c /\ c_proc c' = c_proc c /\ c_ignore_we c' = c_ignore_we c /\
+  exists pr, get_proc s (c_app c) (c_proc c) = Some pr /\ amem i (p_infos (sp_st pr)) = true /\
+    c_wait c' = ceil_ticks (match c_kind c with KStart => sp_startsecs pr | KStop => sp_stopwaitsecs pr end) + c_min c.
+Proof.
+  intros c i s c' s' H. unfold update_identifier in H.
+  apply mbind_ok in H. destruct H as (s0 & s1 & H0 & H). unfold mget in H0. inversion H0; subst s0 s1; clear H0.
+  apply mbind_ok in H. destruct H as (ins & s1 & H0 & H). apply lift_opt_ok in H0. destruct H0 as [_ ->].
+  apply mbind_ok in H. destruct H as (pr & s1 & H0 & H). apply get_sproc_ok in H0. destruct H0 as [Hp ->].
+  apply mbind_ok in H. destruct H as (inf & s1 & H0 & H). apply lift_opt_ok in H0. destruct H0 as [Hi ->].
+  unfold ret in H. inversion H; subst; clear H. simpl. repeat split; try reflexivity.
+  exists pr. repeat split; auto. unfold amem. rewrite Hi. reflexivity.
+Qed.
+
+(* command_bound, arithmetic core (T2-style, but for all integers): beyond request counter + wait_ticks the
+   command is not kept IN_PROGRESS, the only exception being a RUNNING wait_exit program (documented) *)
+Lemma timed_out_bound : forall k we ig state req mn wt cnt,
+  mn <= wt -> req + wt < cnt ->
+  snd (cmd_timed_out k we ig state req mn wt cnt) <> IN_PROGRESS
+  \/ (k = KStart /\ state = RUNNING /\ we = true /\ ig = false).
+Proof.
+  intros k we ig state req mn wt cnt Hm Hc.
+  assert (H1 : Z.ltb (req + wt) cnt = true) by (apply Z.ltb_lt; lia).
+  assert (H2 : Z.ltb (req + mn) cnt = true) by (apply Z.ltb_lt; lia).
+  destruct k; simpl.
+  - destruct state; simpl; rewrite ?H1, ?H2; simpl; try (left; discriminate).
+    destruct we, ig; simpl; try (left; discriminate). right. auto.
+  - destruct (pstate_eqb state STOPPING); [rewrite H1; left; discriminate|].
+    destruct (is_stopped state); [left; discriminate|]. rewrite H2. left. discriminate.
+Qed.
+
+(* the precise timeouts: minimum_ticks for the acknowledgement, wait_ticks for the completion *)
+Lemma timed_out_ack : forall k we ig state req mn wt cnt,
+  req + mn < cnt ->
+  (k = KStart -> state <> RUNNING /\ state <> STARTING /\ state <> BACKOFF) ->
+  (k = KStop -> state <> STOPPING /\ is_stopped state = false) ->
+  snd (cmd_timed_out k we ig state req mn wt cnt) = TIMED_OUT.
+Proof.
+  intros k we ig state req mn wt cnt Hc Hs Hp.
+  assert (H2 : Z.ltb (req + mn) cnt = true) by (apply Z.ltb_lt; lia).
+  destruct k; simpl.
+  - destruct (Hs eq_refl) as (A & B & C). destruct state; try congruence; rewrite H2; reflexivity.
+  - destruct (Hp eq_refl) as (A & B). rewrite B.
+    destruct state; simpl; try congruence; rewrite H2; reflexivity.
+Qed.
+
+Lemma timed_out_not_failed : forall k we ig state req mn wt cnt,
+  snd (cmd_timed_out k we ig state req mn wt cnt) <> FAILED.
+Proof.
+  intros k we ig state req mn wt cnt. destruct k; simpl.
+  - destruct state; simpl; repeat match goal with |- context [if ?b then _ else _] => destruct b end; discriminate.
+  - repeat match goal with |- context [if ?b then _ else _] => destruct b end; discriminate.
+Qed.
+
+Lemma zremove_in : forall x l l', zremove x l = Some l' -> forall y, In y l' -> In y l.
+Proof.
+  induction l as [|z r IH]; intros l' H y Hy; simpl in H; [discriminate|].
+  destruct (Z.eqb x z) eqn:E.
+  - inversion H; subst. right. exact Hy.
+  - destruct (zremove x r) as [r'|] eqn:Er; [|discriminate]. inversion H; subst.
+    destruct Hy as [->|Hy]; [left; reflexivity | right; apply (IH r' eq_refl y Hy)].
+Qed.
+
+Lemma zremove_nodup : forall x l l', zremove x l = Some l' -> NoDup l -> NoDup l' /\ ~ In x l'.
+Proof.
+  induction l as [|z r IH]; intros l' H Hn; simpl in H; [discriminate|].
+  inversion Hn as [|z' r' Hz Hr]; subst.
+  destruct (Z.eqb x z) eqn:E.
+  - apply Z.eqb_eq in E. subst z. inversion H; subst. split; assumption.
+  - destruct (zremove x r) as [r1|] eqn:Er; [|discriminate]. inversion H; subst.
+    destruct (IH r1 eq_refl Hr) as [Hn1 Hx]. split.
+    + constructor; [|exact Hn1]. intro Hin. apply Hz. apply (zremove_in _ _ _ Er). exact Hin.
+    + intros [Hxz|Hin]; [subst; rewrite Z.eqb_refl in E; discriminate|contradiction].
+Qed.
+
+Lemma zremove_present : forall x l, In x l -> exists l', zremove x l = Some l'.
+Proof.
+  induction l as [|z r IH]; intros Hin; simpl in *; [contradiction|].
+  destruct (Z.eqb x z) eqn:E; [eexists; reflexivity|].
+  destruct Hin as [->|Hin]; [rewrite Z.eqb_refl in E; discriminate|].
+  destruct (IH Hin) as [l' ->]. eexists; reflexivity.
+Qed.
+
+Lemma aget_aset_same : forall V (l : alist V) k v, aget k (aset k v l) = Some v.
+Proof.
+  induction l as [|[k' v'] r IH]; intros k v; simpl; [rewrite Z.eqb_refl; reflexivity|].
+  destruct (Z.eqb k k') eqn:E; simpl; rewrite E; [reflexivity|apply IH].
+Qed.
+
+(* C10 command_bound (every state): a periodic check of a command whose target counter is beyond
+   request counter + wait_ticks takes it out of the current jobs — it is either declared reached (SUCCESS)
+   or abandoned with exactly one forced event (FATAL for a start, STOPPED for a stop) carrying the target
+   identifier and the time of the last event received — unless it is the documented exception. *)
+Theorem command_bound : forall jid cid s c pr i inf cnt j,
+  aget cid (s_cmds s) = Some c -> get_proc s (c_app c) (c_proc c) = Some pr ->
+  c_ident c = Some i -> aget i (p_infos (sp_st pr)) = Some inf -> counter_of s i = Some cnt ->
+  aget jid (s_jobs s) = Some j -> In cid (j_current j) -> NoDup (j_current j) ->
+  c_min c <= c_wait c -> c_req c + c_wait c < cnt ->
+  ~ (c_kind c = KStart /\ i_state inf = RUNNING /\ pr_wait_exit (sp_rules pr) = true /\ c_ignore_we c = false) ->
+  exists push s' j',
+    step_aj_check_cmd jid cid s = Ok ((push, []), s') /\
+    aget jid (s_jobs s') = Some j' /\ ~ In cid (j_current j') /\
+    (forall x, In x (j_current j') -> In x (j_current j)) /\
+    (push = [] \/ exists expected,
+        push = [Force (c_app c) (c_proc c) (Some i) (i_event_time inf) (failure_state (c_kind c)) (pcode expected)]).
+Proof.
+  intros jid cid s c pr i inf cnt j Hc Hp Hi Hinf Hcnt Hj Hin Hnd Hmin Hlate Hex.
+  destruct (zremove_present _ _ Hin) as [cur Hcur].
+  destruct (zremove_nodup _ _ _ Hcur Hnd) as [_ Hnot].
+  pose proof (timed_out_bound (c_kind c) (pr_wait_exit (sp_rules pr)) (c_ignore_we c) (i_state inf)
+                              (c_req c) (c_min c) (c_wait c) cnt Hmin Hlate) as Hb.
+  destruct Hb as [Hb|Hb]; [|exfalso; apply Hex; tauto].
+  unfold step_aj_check_cmd, mbind, get_cmd, get_sproc, get_job, lift_opt, mget, ret.
+  rewrite Hc. cbv beta iota. rewrite Hp. cbv beta iota. rewrite Hi. cbv beta iota. rewrite Hinf. cbv beta iota.
+  rewrite Hcnt. cbv beta iota.
+  destruct (cmd_timed_out (c_kind c) (pr_wait_exit (sp_rules pr)) (c_ignore_we c) (i_state inf)
+                          (c_req c) (c_min c) (c_wait c) cnt) as [expected res] eqn:Et.
+  pose proof (timed_out_not_failed (c_kind c) (pr_wait_exit (sp_rules pr)) (c_ignore_we c) (i_state inf)
+                                   (c_req c) (c_min c) (c_wait c) cnt) as Hnf. rewrite Et in Hnf.
+  simpl in Hb, Hnf. destruct res; try congruence; cbv beta iota; rewrite Hj; cbv beta iota; rewrite Hcur; cbv beta iota;
+    unfold put_job, mmod; cbv beta iota.
+  - eexists _, _, _. split; [reflexivity|]. simpl. rewrite aget_aset_same. split; [reflexivity|].
+    simpl. split; [exact Hnot|]. split; [apply (zremove_in _ _ _ Hcur)|]. left. reflexivity.
+  - eexists _, _, _. split; [reflexivity|]. simpl. rewrite aget_aset_same. split; [reflexivity|].
+    simpl. split; [exact Hnot|]. split; [apply (zremove_in _ _ _ Hcur)|]. right. exists expected. reflexivity.
 Qed.
